@@ -9,9 +9,11 @@ package main
 //                    creates that OpenCDR refuses (malformed nFPLMNID, pDUSessionChargingInformation without S-NSSAI),
 //                    session-based and one-time, between accepted ones; releases without FINAL that leave a reservation
 //                    behind when the subscriber has no session left.
-//   -mode events-emptyref   the same, plus updates and releases addressed to the EMPTY reference after an event
-//                    (the Location of an event create ends in an empty reference).  Not part of any check's default
-//                    run: kept for replays.
+//                    Updates and releases addressed to the EMPTY reference after an event (the Location of an event
+//                    create ends in an empty reference; it designates nothing: 404, no effect).  Refused creates with and
+//                    without a notification address of their own, followed by a recharge (the notification must reach the
+//                    address an ACCEPTED create registered).
+//   -mode events-emptyref   (older name of the same)
 //   -mode escapes    consumer names (hence references) with characters that are escaped in a URI: '%', "%25", "%2F",
 //                    "%41", '+', ' ', '?', '#', ';' ... ; every returned reference is then updated and released, and
 //                    references whose percent-DECODING would equal a live reference are sent as well (they designate nothing).
@@ -155,7 +157,8 @@ func (g *evGen) session(supi, nf string) *genSess {
 	return s
 }
 
-// a create that OpenCDR refuses; a session-based one uses up a sequence number all the same
+// a create that OpenCDR refuses; a session-based one uses up a sequence number all the same.  It comes with or without a
+// notification address of its own (which must not replace the registered one), and is sometimes followed by a recharge
 func (g *evGen) refused(supi, nf string, oneTime bool) {
 	flags := g.r.pick(2, 2, 4, 6)
 	if oneTime {
@@ -163,8 +166,11 @@ func (g *evGen) refused(supi, nf string, oneTime bool) {
 	} else {
 		g.counter++
 	}
-	fmt.Fprintf(g.w, "chf create %s\n", fmtReq(supi, nf, 300+g.r.intn(21), 0, 1, flags, nil, nil))
+	fmt.Fprintf(g.w, "chf create %s\n", fmtReq(supi, nf, 300+g.r.intn(21), 0, g.r.pick(0, 1), flags, nil, nil))
 	g.done++
+	if g.r.chance(40) {
+		fmt.Fprintf(g.w, "chf recharge %s\n", hexOf([]byte(supi+"_"+strconv.Itoa(g.r.pick(1, 2)))))
+	}
 }
 
 func (g *evGen) update(s *genSess, seq int, rgs []int, trigs []string) {
@@ -202,7 +208,7 @@ func (g *evGen) liveOf(supi string) []*genSess {
 func genChfEvents(o genOpts, w *bufio.Writer) {
 	g := &evGen{r: &rng{s: o.seed ^ 0x6576656e7473}, w: w}
 	r := g.r
-	emptyRef := o.mode == "events-emptyref"
+	emptyRef := true
 	for g.done < o.n {
 		fmt.Fprintf(w, "chf reset\n")
 		g.counter, g.sess = 0, nil
